@@ -22,7 +22,9 @@ RULE = (
     "JSON sub-suite of C04: the scenarios of C02 (random type system with deep hierarchies, reserved feature names, every "
     "primitive / array / list kind, FSArray with and without element type, TOP-ranged features, a String subtype, extended "
     "DocumentAnnotation; CAS of 1-3 views with ASCII/BMP/astral text, cycles, diamonds, shared and unshared collections, null "
-    "elements, special floats, sofa URI / byte array with and without id, one id-less structure) where in two thirds of the "
+    "elements, special floats, sofa URI / byte array with and without id -- the array in combinations shared with a second "
+    "sofa, indexed in a view, referenced by a TOP- / ByteArray-ranged feature or an FSArray element --, one id-less structure) "
+    "where in two thirds of the "
     "cases only about a third of the index members are kept, so that the other structures are reachable only through "
     "references, FSArray / FSList elements, TOP-ranged features or shared collections; type_system_mode FULL / MINIMAL, "
     "pretty_print and ensure_ascii alternate.  A case is non-trivial when it has >= 2 structures and a reference or "
@@ -65,8 +67,11 @@ def make_scenario(sub, k, big=False):
         cspec["members"] = [m for m in cspec["members"] if m[1] in keep]
         pruned = True
     da_feats = C02._extend(r, cassis, tspec, cspec)
+    # sofa byte arrays shared by two sofas / indexed / referenced (d1bc860): each is one structure, written once
+    knobs = C02.share_sofa_arrays(random.Random(sub ^ 0x50FA), cassis, tspec, da_feats, cspec)
     return {"tspec": tspec, "da_feats": da_feats, "cspec": cspec,
-            "cfg": {"mode": MODES[k % 2], "pretty": (k // 2) % 2 == 0, "ascii": (k // 4) % 2 == 0, "pruned": pruned}}
+            "cfg": {"mode": MODES[k % 2], "pretty": (k // 2) % 2 == 0, "ascii": (k // 4) % 2 == 0, "pruned": pruned,
+                    "array_knobs": knobs}}
 
 
 def generate(rng, tier):
